@@ -48,8 +48,9 @@ Definition key_check (keys : list (option key_kind)) : bool :=
   end.
 
 (* getHttpAuth: X-Tinode-Auth, Authorization, query, form, cookie; a session id is
-   consulted only when no placement names a method.  sid = uid of the live session
-   (None: no such session; Some 0: a session that has not logged in) *)
+   consulted only when no placement names a method.  sid = the uid the session store yields
+   for the sid parameter (None: no sid parameter; Some 0: no such session, or a session that
+   has not logged in) *)
 Definition auth_of (creds : list (option cred_kind)) (sid : option N) : auth_outcome :=
   match first_some creds with
   | Some (CGood u) => AuthUid u
